@@ -623,4 +623,18 @@ def parseValueTokens (all : List Token) : Except PErr Value :=
     | .error e => .error e
   | none => .error .noEOF
 
+/-- the decidable known-finding predicate of D-03b, on the complete token list -/
+def typeRefMalformed (all : List Token) : Bool :=
+  match parseTokens all with
+  | .ok p => p.typeRefMalformed
+  | .error _ => false
+
+def typeRefWellFormed (all : List Token) : Bool := !typeRefMalformed all
+
+/-- M's verdict as data: `some flag` when accepted -/
+def verdict (toks : List Token) (eofPos : Nat) : Option Bool :=
+  match parseToks toks eofPos with
+  | .ok p => some p.typeRefMalformed
+  | .error _ => none
+
 end GqlModel.Parser
